@@ -13,7 +13,7 @@ def check(ctx):
     ctx.guard(r171_172, ctx)
     ctx.guard(r173, ctx)
     ctx.guard(r174, ctx)
-
+    ctx.guard(_shared_c17, ctx)
 
 def _train_steps(r):
     return [e for e in r.events if e.kind == "call" and e.data["fterm"].op == "attr" and e.data["fterm"].args[1] == "train_step"]
@@ -270,3 +270,12 @@ def _select(t: T, env):
             t = t.args[1]
         else:
             return t
+
+
+def _shared_c17(ctx):
+    """Life-cycle (history independence, pure prediction) and label-position clauses of the estimator(s) this property
+    is about, shared with C19 R19.3/R19.4 and C12 R12.1 and reported under this property's rule ids."""
+    from .c12 import label_sinks
+    from .c19 import lifecycle_of
+    ctx.rule("R17.5", "fit does not depend on state left by an earlier fit and prediction writes no state (shared with C19 R19.3 / R19.4)")
+    lifecycle_of(ctx, [CLS], {"R19.3": "R17.5", "R19.4": "R17.5"})
